@@ -16,6 +16,7 @@ pub mod c13;
 pub mod c14;
 pub mod c15;
 pub mod c16;
+pub mod c17;
 pub mod c18;
 
 pub fn registry() -> Vec<PropEntry> {
@@ -36,6 +37,7 @@ pub fn registry() -> Vec<PropEntry> {
         PropEntry { id: "C14", run: c14::run, replay: c14::replay },
         PropEntry { id: "C15", run: c15::run, replay: c15::replay },
         PropEntry { id: "C16", run: c16::run, replay: c16::replay },
+        PropEntry { id: "C17", run: c17::run, replay: c17::replay },
         PropEntry { id: "C18", run: c18::run, replay: c18::replay },
     ]
 }
